@@ -45,7 +45,7 @@ def run(ctx: Ctx):
 
     # a vector laid out along rows or columns by comparing its length with an extent of the block is right for one
     # orientation and wrong for its mirror image whenever the block is square
-    generic_lints(ctx, kinds=("extent-guessed-orientation",), scope=lambda short, cls, member: short in ("matrix/measure.py", "matrix/subtotals.py", "matrix/cubemeasure.py", "cubepart.py"))
+    generic_lints(ctx, kinds=("extent-guessed-orientation",), scope=lambda short, cls, member: short in ("matrix/measure.py", "matrix/subtotals.py", "matrix/cubemeasure.py", "cubepart.py", "min_base_size_mask.py"))
 
 
 def _swap_nf(nf: str) -> str:
